@@ -105,6 +105,13 @@ pub fn fuzz_line(s: &mut S, me: &str) -> (String, String) {
     let arity = s.pick(max + 3);
     let mut l = verb.to_string();
     // MODE gets structured shapes half of the time so that handlers are reached
+    if verb == "MODE" && s.chance(15) {
+        // list queries (bans, exceptions, invite exceptions) of every channel of the scene - the
+        // configured channel has lists that were never set by a MODE command
+        let target = ["#c0", "&pre", "&pre", "#c1"][s.pick(4)];
+        let q = ["+b", "b", "+e", "+I", "+beI", "-b", "+b +e +I", "e", "I"][s.pick(9)];
+        return (format!("MODE {} {}", target, q), format!("MODE/list{}", q.split(' ').next().unwrap_or("")));
+    }
     if verb == "MODE" && s.chance(60) {
         let target = ["#c0", "#c1", "&pre", me, "n0", "#nonexistent"][s.pick(6)];
         let strings = [
@@ -222,6 +229,8 @@ fn build_scene(seeds: &[u16]) -> Scene {
         topic: Some("predefined".into()),
         flags: "nt".into(),
         ban: vec!["*!*@192.168.*".into()],
+        except: vec!["*!*@192.168.7.*".into()],
+        invex: vec!["*!*@172.16.*".into()],
         // (rank lists naming members, connected non-members and nicks that never connect)
         operators: vec!["n1".into(), "f".into(), "ghost".into()],
         half_operators: vec!["phantom".into()],
